@@ -48,14 +48,25 @@ func Reconcile(asset string, senders []Sender, receivers []Receiver) ([]Posting,
 
 		// Ugly workaround
 		if receiver.Name == KEPT_ADDR {
+			// the kept amount is withheld from the next sender(s) in line
 			sender, empty := popStack(&senders)
 			if !empty {
-				var newMon big.Int
-				newMon.Sub(sender.Monetary, receiver.Monetary)
-				senders = append(senders, Sender{
-					Name:     sender.Name,
-					Monetary: &newMon,
-				})
+				switch sender.Monetary.Cmp(receiver.Monetary) {
+				case 1: /* sender.Monetary > kept: the sender keeps the difference available */
+					var newMon big.Int
+					newMon.Sub(sender.Monetary, receiver.Monetary)
+					senders = append(senders, Sender{
+						Name:     sender.Name,
+						Monetary: &newMon,
+					})
+				case -1: /* sender.Monetary < kept: the rest is withheld from the following senders */
+					var leftToKeep big.Int
+					leftToKeep.Sub(receiver.Monetary, sender.Monetary)
+					receivers = append(receivers, Receiver{
+						Name:     KEPT_ADDR,
+						Monetary: &leftToKeep,
+					})
+				}
 			}
 			continue
 		}
